@@ -137,6 +137,15 @@ func (gc *primaryGC) gc(ctx context.Context, lowUsePercent int64, timeLimit time
 
 		affected, err := processFreeList(ctx, gc.freeList, gc.primary.basePath, gc.primary.maxFileSize)
 		if err != nil {
+			// The records marked as deleted before the error stay marked, and
+			// are skipped when the .gc file is processed again, so the files
+			// they are in must be visited again.
+			for fileNum := range affected {
+				delete(gc.visited, fileNum)
+			}
+			for fileNum := range affectedSet {
+				delete(gc.visited, fileNum)
+			}
 			if err == context.DeadlineExceeded {
 				return gc.reclaimed, err
 			}
@@ -432,14 +441,14 @@ func processFreeList(ctx context.Context, freeList *freelist.FreeList, basePath 
 
 		for {
 			if ctx.Err() != nil {
-				return nil, ctx.Err()
+				return affectedSet, ctx.Err()
 			}
 			free, err := flIter.Next()
 			if err != nil {
 				if err == io.EOF {
 					break
 				}
-				return nil, fmt.Errorf("error reading freelist: %w", err)
+				return affectedSet, fmt.Errorf("error reading freelist: %w", err)
 			}
 			freeBatch = append(freeBatch, free)
 			if len(freeBatch) == cap(freeBatch) {
@@ -459,7 +468,7 @@ func processFreeList(ctx context.Context, freeList *freelist.FreeList, basePath 
 
 	verifhook.At("primary.gc.fl.applied")
 	if err = os.Remove(flPath); err != nil {
-		return nil, fmt.Errorf("error removing freelist: %w", err)
+		return affectedSet, fmt.Errorf("error removing freelist: %w", err)
 	}
 	verifhook.At("primary.gc.fl.removed")
 
